@@ -57,12 +57,15 @@ func (c *counters) flush(run *ev.Run, prefix string) {
 
 // report sends the monitor's verdicts of one outcome to the run.
 func report(run *ev.Run, v *env, o *outcome, caseID string, witness map[string]any) {
+	if o.TransientFlagless > 0 {
+		run.Obs("discarded_effects_made_without_the_flag", int64(o.TransientFlagless))
+	}
 	for _, fv := range o.verdicts(v) {
 		w := map[string]any{"stage": v.stage, "outcome": o.summary(v.name), "fault": o.Fault}
 		for k, x := range witness {
 			w[k] = x
 		}
-		run.Violation(fv.Sig, caseID, fv.Detail, w)
+		violation(v.stage, fv.Sig, caseID, fv.Detail, w)
 	}
 }
 
@@ -105,6 +108,7 @@ func runNatives(run *ev.Run, v *env, ws *witnessState, entryFlags []callflag.Cal
 	minFlags := map[string][]string{} // case -> flag sets under which it halted with its full effect
 	methods := map[string]bool{}
 	safeMethods := map[string]bool{}
+	asActor := map[string]bool{} // natives seen writing / notifying while being called by another native
 	parallel(len(cells), func(i int) {
 		cl := cells[i]
 		c := cl.c
@@ -120,7 +124,7 @@ func runNatives(run *ev.Run, v *env, ws *witnessState, entryFlags []callflag.Cal
 		inv.EntryFlags = cl.e
 		o, err := v.run(inv)
 		if err != nil {
-			run.Violation("panic-escaped-vm:native:"+c.Contract+"."+c.Method, id, err.Error(), map[string]any{"script": hex.EncodeToString(inv.Script)})
+			violation(v.stage, "panic-escaped-vm:native:"+c.Contract+"."+c.Method, id, err.Error(), map[string]any{"script": hex.EncodeToString(inv.Script)})
 			return
 		}
 		reached := len(o.Calls) > 0
@@ -144,7 +148,7 @@ func runNatives(run *ev.Run, v *env, ws *witnessState, entryFlags []callflag.Cal
 		report(run, v, o, id, wit)
 		if c.Safe && o.Halted && len(o.FinalWrites) > 0 {
 			w := o.FinalWrites[0]
-			run.Violation("safe-method-changed-state:native:"+c.Contract+"."+c.Method, id,
+			violation(v.stage, "safe-method-changed-state:native:"+c.Contract+"."+c.Method, id,
 				fmt.Sprintf("safe method %s.%s called with flags %s HALTed with storage change %s made by %s", c.Contract, c.Method, fstr(cl.f), fmtKey(w.Key), v.name(w.By.Hash)), wit)
 		}
 		mname := c.Contract + "." + c.Method + "/" + fmt.Sprint(c.NParams)
@@ -154,6 +158,12 @@ func runNatives(run *ev.Run, v *env, ws *witnessState, entryFlags []callflag.Cal
 			safeMethods[mname] = true
 		}
 		if cl.e == callflag.All && cl.f == callflag.All && o.Halted {
+			for _, w := range o.FinalWrites {
+				asActor[v.actor(w.By)] = true
+			}
+			for _, n := range o.FinalNotifs {
+				asActor[v.actor(n.By)] = true
+			}
 			ec := effectClass(o)
 			for _, ch := range ec {
 				if ch != '-' && !strings.ContainsRune(effects[mname], ch) {
@@ -173,14 +183,16 @@ func runNatives(run *ev.Run, v *env, ws *witnessState, entryFlags []callflag.Cal
 		}
 	})
 	cnt.flush(run, "native_")
-	var notExercised, exercised []string
+	notExercised, exercised := []string{}, []string{}
 	nonSafe := 0
 	for m := range methods {
 		if safeMethods[m] {
 			continue
 		}
 		nonSafe++
-		if effects[m] == "" {
+		if effects[m] == "" && asActor["native:"+m[:strings.LastIndex(m, "/")]] {
+			exercised = append(exercised, m+":as-callee-of-another-native")
+		} else if effects[m] == "" {
 			notExercised = append(notExercised, m)
 		} else {
 			exercised = append(exercised, m+":"+effects[m])
@@ -228,7 +240,7 @@ func runSyscalls(run *ev.Run, v *env) {
 		h := v.probes[0].Hash
 		o, err := v.run(&invocation{Script: c.Script, EntryFlags: f, AsHash: &h, Preload: c.Preload})
 		if err != nil {
-			run.Violation("panic-escaped-vm:syscall:"+c.Name, id, err.Error(), map[string]any{"script": hex.EncodeToString(c.Script)})
+			violation(v.stage, "panic-escaped-vm:syscall:"+c.Name, id, err.Error(), map[string]any{"script": hex.EncodeToString(c.Script)})
 			return
 		}
 		run.Case(fmt.Sprintf("syscall/%s/%s/f=%s/%s", v.stage, c.id(), fstr(f), o.summary(v.name)), o.Instrs > 0)
@@ -273,19 +285,19 @@ type hop struct {
 var chainMethods = []string{"probe", "safeProbe", "tryProbe"}
 var actNames = map[int]string{0: "none", 1: "put", 2: "notify", 3: "localPut", 4: "delete", 5: "localDelete", 6: "loadScript-notify", 7: "CALLT-GAS.transfer"}
 
-func (v *env) chainScript(entryCall callflag.CallFlag, hops []hop, act int, key []byte) []byte {
+func (v *env) chainScript(hops []hop, act, mid int, key []byte) []byte {
 	// innermost first
 	var next []any = []any{}
 	for i := len(hops) - 1; i >= 1; i-- {
-		a := 0
-		var k []byte = []byte{}
+		a := mid
+		var k []byte = []byte("k-mid")
 		if i == len(hops)-1 {
 			a, k = act, key
 		}
 		next = []any{v.probes[hops[i].Probe].Hash, hops[i].Method, int(hops[i].Flags), a, k, next}
 	}
-	a := 0
-	var k []byte = []byte{}
+	a := mid
+	var k []byte = []byte("k-mid")
 	if len(hops) == 1 {
 		a, k = act, key
 	}
@@ -318,11 +330,12 @@ func reportedFlags(it stackitem.Item) []int {
 // runChains: call chains entry -> A -> B (-> C) with every combination of
 // requested flags (all of them for depth 2, a seeded sample for depth 3), safe
 // / plain / try-wrapped relays and an effect attempted by the last hop.
-func runChains(run *ev.Run, v *env, depth3 int) {
+func runChains(run *ev.Run, v *env, depth3 int, exhaustive3 bool) {
 	type cell struct {
 		entry callflag.CallFlag
 		hops  []hop
 		act   int
+		mid   int // effect attempted by every hop before it relays (0 none, 1 put, 2 notify)
 	}
 	var cells []cell
 	acts := []int{0, 1, 2, 3, 4, 6, 7}
@@ -331,7 +344,7 @@ func runChains(run *ev.Run, v *env, depth3 int) {
 		for f := callflag.CallFlag(0); f <= callflag.All; f++ {
 			for _, m := range chainMethods {
 				for _, a := range acts {
-					cells = append(cells, cell{e, []hop{{0, m, f}}, a})
+					cells = append(cells, cell{e, []hop{{0, m, f}}, a, 0})
 				}
 			}
 		}
@@ -345,7 +358,32 @@ func runChains(run *ev.Run, v *env, depth3 int) {
 			for _, m1 := range chainMethods {
 				for _, m2 := range chainMethods {
 					for _, a := range acts {
-						cells = append(cells, cell{callflag.All, []hop{{0, m1, f1}, {1, m2, f2}}, a})
+						for mid := 0; mid <= 2; mid++ {
+							cells = append(cells, cell{callflag.All, []hop{{0, m1, f1}, {1, m2, f2}}, a, mid})
+						}
+					}
+				}
+			}
+		}
+	}
+	if exhaustive3 {
+		ro := []callflag.CallFlag{}
+		for f := callflag.CallFlag(0); f <= callflag.All; f++ {
+			if f&callflag.ReadOnly == callflag.ReadOnly {
+				ro = append(ro, f)
+			}
+		}
+		for _, f1 := range ro {
+			for _, f2 := range ro {
+				for f3 := callflag.CallFlag(0); f3 <= callflag.All; f3++ {
+					for _, m1 := range chainMethods {
+						for _, m2 := range chainMethods {
+							for _, m3 := range chainMethods {
+								for _, a := range acts {
+									cells = append(cells, cell{callflag.All, []hop{{0, m1, f1}, {1, m2, f2}, {2, m3, f3}}, a, (int(f3) + a) % 3})
+								}
+							}
+						}
 					}
 				}
 			}
@@ -365,7 +403,7 @@ func runChains(run *ev.Run, v *env, depth3 int) {
 		if r.Chance(1, 4) {
 			e = callflag.CallFlag(r.Intn(16)) | callflag.ReadOnly
 		}
-		cells = append(cells, cell{e, hs, acts[r.Intn(len(acts))]})
+		cells = append(cells, cell{e, hs, acts[r.Intn(len(acts))], r.Intn(3)})
 	}
 	notifyScript := asm(func(w *io.BinWriter) {
 		emit.Array(w, 5)
@@ -379,7 +417,7 @@ func runChains(run *ev.Run, v *env, depth3 int) {
 		for _, h := range cl.hops {
 			fmt.Fprintf(&sb, ">%c.%s:%s", 'A'+h.Probe, h.Method, fstr(h.Flags))
 		}
-		id := fmt.Sprintf("chain/%s/e=%s%s/act=%s", v.stage, fstr(cl.entry), sb.String(), actNames[cl.act])
+		id := fmt.Sprintf("chain/%s/e=%s%s/act=%s/mid=%s", v.stage, fstr(cl.entry), sb.String(), actNames[cl.act], actNames[cl.mid])
 		if !run.Want(id) {
 			return
 		}
@@ -390,10 +428,10 @@ func runChains(run *ev.Run, v *env, depth3 int) {
 		case 7:
 			key = v.user.ScriptHash().BytesBE()
 		}
-		script := v.chainScript(cl.entry, cl.hops, cl.act, key)
+		script := v.chainScript(cl.hops, cl.act, cl.mid, key)
 		o, err := v.run(&invocation{Script: script, EntryFlags: cl.entry})
 		if err != nil {
-			run.Violation("panic-escaped-vm:chain", id, err.Error(), map[string]any{"script": hex.EncodeToString(script)})
+			violation(v.stage, "panic-escaped-vm:chain", id, err.Error(), map[string]any{"script": hex.EncodeToString(script)})
 			return
 		}
 		last := cl.hops[len(cl.hops)-1]
@@ -423,11 +461,11 @@ func runChains(run *ev.Run, v *env, depth3 int) {
 				cnt.add("getcallflags_answers", 1)
 				req := int(cl.hops[k].Flags)
 				if got&^prev != 0 {
-					run.Violation("callee-flags-exceed-caller:read-by-GetCallFlags", id,
+					violation(v.stage, "callee-flags-exceed-caller:read-by-GetCallFlags", id,
 						fmt.Sprintf("hop %d read flags %04b inside the callee, its caller had %04b", k+1, got, prev), wit)
 				}
 				if got&^req != 0 {
-					run.Violation("callee-flags-exceed-requested:read-by-GetCallFlags", id,
+					violation(v.stage, "callee-flags-exceed-requested:read-by-GetCallFlags", id,
 						fmt.Sprintf("hop %d read flags %04b inside the callee, the caller requested %04b", k+1, got, req), wit)
 				}
 				if got != prev&req && !(cl.hops[k].Method == "safeProbe") {
@@ -451,7 +489,7 @@ func runChains(run *ev.Run, v *env, depth3 int) {
 			}
 			for _, w := range o.FinalWrites {
 				if below[w.By.Hash] {
-					run.Violation("safe-method-changed-state:"+v.actor(w.By), id,
+					violation(v.stage, "safe-method-changed-state:"+v.actor(w.By), id,
 						fmt.Sprintf("hop %d is a method marked safe; context %s flags=%s at or below it changed storage %s and the change is in the HALTed result", safeFrom+1, v.name(w.By.Hash), fstr(w.By.Flags), fmtKey(w.Key)), wit)
 					break
 				}
